@@ -693,6 +693,10 @@ func runSocket(c *mon.Case, sp spec) {
 	}
 	c.Count("errors_provoked", len(steps))
 	c.Count("locks_probed", hx.ProbeLocks(c, "lock-held:"+ctx+":", ctx, s))
+	// carrying on: after all these failed calls the socket still does its job with a real peer
+	if p[0] != 'x' && !carryOn(c, ctx, p, s) {
+		return
+	}
 	if !step("Close", s.Close) {
 		return
 	}
@@ -711,6 +715,70 @@ func runSocket(c *mon.Case, sp spec) {
 	}
 	c.Count("locks_probed", hx.ProbeLocks(c, "lock-held:"+ctx+"(closed):", ctx, s))
 	c.Nontrivial()
+}
+
+// carryOn connects a real peer over inproc and runs one exchange in each direction the pattern has.
+func carryOn(c *mon.Case, ctx, p string, s mangos.Socket) bool {
+	s.SetOption(mangos.OptionRecvDeadline, time.Duration(0))
+	s.SetOption(mangos.OptionSendDeadline, time.Duration(0))
+	s.SetOption(mangos.OptionRetryTime, time.Hour)
+	peer := hx.MustSock(c, hx.PeerOf[p])
+	if p == "sub" || p == "pub" {
+		s.SetOption(mangos.OptionSubscribe, []byte{})
+		peer.SetOption(mangos.OptionSubscribe, []byte{})
+	}
+	ws, wp := hx.WatchPipes(s), hx.WatchPipes(peer)
+	if _, _, err := hx.Connect(s, peer, "inproc"); err != nil {
+		c.Violate("unusable:"+ctx+"/listen", "%s: after the provoked errors the socket cannot listen on a fresh inproc address: %v", ctx, err)
+		return false
+	}
+	if !hx.WaitAttached(c, ws, 1, "carry-on peer (socket side)") || !hx.WaitAttached(c, wp, 1, "carry-on peer (peer side)") {
+		return false
+	}
+	xfer := func(from, to mangos.Socket, what string) bool {
+		msg := []byte("carry-on-" + hx.Uniq("m"))
+		rk := mon.Go("Recv", func() (interface{}, error) {
+			for { // messages the earlier steps left queued come first
+				b, e := to.Recv()
+				if e != nil || string(b) == string(msg) {
+					return b, e
+				}
+			}
+		})
+		sk := mon.Go("Send", func() (interface{}, error) { return nil, from.Send(msg) })
+		if !c.AwaitOrViolate("wedged:"+ctx+"/carry-on-send", ctx+": "+what+": Send returning", sk.Done, mon.AwaitOpts{}) {
+			return false
+		}
+		if _, e, _ := sk.Result(); e != nil {
+			c.Violate("unusable:"+ctx+"/send", "%s: %s: Send returned %v after the socket had only seen failed calls that were corrected", ctx, what, e)
+			return false
+		}
+		if !c.AwaitOrViolate("wedged:"+ctx+"/carry-on-recv", ctx+": "+what+": Recv returning", rk.Done, mon.AwaitOpts{}) {
+			return false
+		}
+		if v, e, _ := rk.Result(); e != nil || string(v.([]byte)) != string(msg) {
+			c.Violate("unusable:"+ctx+"/recv", "%s: %s: Recv returned (%q, %v), want %q", ctx, what, v, e, msg)
+			return false
+		}
+		return true
+	}
+	ok := true
+	switch p {
+	case "req", "surveyor":
+		ok = xfer(s, peer, "request out") && xfer(peer, s, "reply back")
+	case "rep", "respondent":
+		ok = xfer(peer, s, "request in") && xfer(s, peer, "reply out")
+	case "pub", "push":
+		ok = xfer(s, peer, "message out")
+	case "sub", "pull":
+		ok = xfer(peer, s, "message in")
+	default:
+		ok = xfer(s, peer, "message out") && xfer(peer, s, "message in")
+	}
+	if ok {
+		c.Count("carry_on_exchanges", 1)
+	}
+	return ok
 }
 
 // safe turns a panic into an error: panics are C19's subject, here only wedging matters.
